@@ -16,6 +16,8 @@ From Sakura.Gen Require Import Consts VarRows.
 From Sakura.Spec Require Import SmfSpec TrackSpec.
 From Sakura.Proofs Require Import VlqP WriterP SortP ContainerP ExtP RsvP BlockP LayoutP LogP.
 From Sakura.Proofs Require Import FollowP.
+From Sakura.Spec Require Utf8Spec.
+From Sakura.Proofs Require CmdP.
 From Coq Require Import Lia Permutation.
 Open Scope list_scope.
 Open Scope Z_scope.
@@ -357,6 +359,31 @@ Proof.
   intros t Ht. apply track_inv_push_events; [|exact Ht].
   eapply Forall_impl; [|apply Hf]. intros e He. apply simple_eok, plain_ev_simple, He.
 Qed.
+(* the arms added with the text metas / Port / SysEx: events with a payload *)
+Lemma add_events_inv_eok s f : (forall tp ch, Forall eok (f tp ch)) -> events_inv s -> events_inv (add_events s f).
+Proof.
+  intros Hf H. rewrite add_events_eq. apply inv_upd_cur; [|exact H].
+  intros t Ht. apply track_inv_push_events; [apply Hf|exact Ht].
+Qed.
+Lemma is_char_scalar txt : forallb Utf8.is_char txt = true -> Forall Utf8Spec.scalar txt.
+Proof.
+  intros H. rewrite forallb_forall in H. apply Forall_forall. intros c Hc. specialize (H c Hc).
+  unfold Utf8.is_char in H. unfold Utf8Spec.scalar. lia.
+Qed.
+Lemma meta_text_eok tp ty txt : 0 <= ty < 128 -> ty <> 47 -> forallb Utf8.is_char txt = true ->
+  Forall eok (Cmd.cmd_meta_text tp ty txt).
+Proof.
+  intros Hty H47 Hc. apply is_char_scalar in Hc. rewrite CmdP.meta_text_eq.
+  destruct (CmdP.fit_below_spec txt 128 ltac:(lia)) as [rest [E1 [E2 E3]]].
+  set (p := Utf8Spec.utf8 (Utf8Spec.fit_below 128 txt)) in *.
+  assert (Hb : forallb byte_ok p = true).
+  { apply CmdP.utf8_ok. rewrite E1 in Hc. apply Forall_app in Hc. tauto. }
+  pose proof (CmdP.zlen_nonneg p) as Hp.
+  constructor; [|constructor].
+  unfold eok, event_ok, ev_meta, bytes_ok, data7. cbn [e_type e_data e_v1 e_v2 e_v3]. rewrite Hb.
+  replace (ty =? 47) with false by lia.
+  repeat (apply andb_true_intro; split); try reflexivity; lia.
+Qed.
 Lemma exec_rpn_direct_inv s nrpn args : events_inv s -> events_inv (exec_rpn_direct s nrpn args).
 Proof.
   intros H. destruct (exec_rpn_direct_cases_plain s nrpn args) as [(f & -> & Hf)|[m ->]];
@@ -502,6 +529,10 @@ Proof.
   - (* TDecresc *) destruct (_ <? _); [discriminate|]. intros E; injection E as <-.
     apply inv_upd_cur; [intros t0 Ht0; apply track_inv_on_rt; [rsv_ext|exact Ht0]|exact H].
   - (* TPlay *) intros E. apply (exec_play_events_inv ec s args lineno s' Hec H E).
+  - (* TMetaText *)
+    destruct (_ && _) eqn:G; [|discriminate]. intros E; injection E as <-.
+    apply andb_prop in G. destruct G as [G G4]. apply andb_prop in G. destruct G as [G G3]. apply andb_prop in G. destruct G as [G1 G2].
+    apply add_events_inv_eok; [|exact H]. intros tp _. apply meta_text_eok; [lia|lia|exact G4].
 Qed.
 
 Theorem exec_f_events_inv steps d toks s s' :
@@ -586,7 +617,8 @@ Proof.
     try (injection H as ->; first [eapply read_cc_tb; eassumption | eapply read_command_cc_tb; eassumption
                                   | eapply read_rpn_command_tb; eassumption | eapply read_play_tb; eassumption
                                   | eapply read_def_str_tb; eassumption]);
-    injection H as <- <- <- <-; try exact I; eapply read_args_tokens_tb; eassumption.
+    injection H as <- <- <- <-; try exact I;
+    first [eapply read_args_tokens_tb; eassumption | eapply read_macro_args_tb; eassumption].
 Qed.
 Lemma read_ext_command_tb ls ttype argt tag1 tag2 s ln ot s' ln' ls' :
   read_ext_command ls ttype argt tag1 tag2 s ln = Ok (ot, s', ln', ls') -> TB ls -> TB ls'.
@@ -772,6 +804,8 @@ Proof.
   - (* TDecresc *) destruct (_ <? _); [discriminate|]. intros E; injection E as <-.
     apply (dims_of_dsig s _ (dsig_upd_cur s _) H).
   - (* TPlay *) intros E. apply (exec_play_dims ec s args lineno s' Hec H E).
+  - (* TMetaText *) destruct (_ && _); [|discriminate]. intros E; injection E as <-.
+    apply (dims_of_dsig s _ (dsig_add_events s _) H).
 Qed.
 
 Theorem exec_f_dims steps d toks s s' :
